@@ -153,6 +153,22 @@ def prop_pairing(case, stats):
                         % (d, p, lhs, rhs, e, _short(case['prog'])))
 
 
+def prop_no_pullback(case, stats):
+    """operations without a pullback (triu, tril, minimum, maximum, ones, abs(), arcsin..tanh): recording or the sweep may
+    raise (any exception is a refusal), but if adjoints ARE returned they must satisfy the pairing"""
+    try:
+        prop_pairing(case, stats)
+    except Rejected:
+        stats.event('refused:declared')
+        raise
+    except Violation as v:
+        if str(v).startswith('raised '):
+            stats.event('refused:raised')
+            raise Rejected(str(v)[:200])
+        raise
+    stats.event('completed-with-correct-adjoint')
+
+
 def _short(prog):
     s = []
     for ins in prog:
@@ -179,10 +195,10 @@ SINGLE = ['un', 'special', 'unp', 'bin', 'binc', 'pow', 'neg', 'get', 'T', 'resh
 
 
 @st.composite
-def pairing_cases(draw, tier, first=None, families=None, max_len=8, min_len=1):
+def pairing_cases(draw, tier, first=None, families=None, max_len=8, min_len=1, allow_ones=False):
     allow_bcast = not KF.is_open(OPEN_SET_BCAST)
     pr = draw(PG.programs(n_inputs=(1, 2), max_len=max_len, min_len=min_len, families=families, out='any', K=4,
-                          allow_set_broadcast=allow_bcast, first=first, allow_ones=False))
+                          allow_set_broadcast=allow_bcast, first=first, allow_ones=allow_ones))
     Dmax = 3 if tier == 'quick' else 4
     D = draw(st.sampled_from([3, 2, 3, 2] + ([4, 4] if Dmax >= 4 else []) + [1]))
     P = draw(st.sampled_from([2, 1, 2, 3]))
@@ -219,6 +235,13 @@ def buckets(tier):
                          (lambda fam=fam: pairing_cases(tier, first=fam, families=CHEAP_TAIL, max_len=3, min_len=1)),
                          prop_pairing, {'quick': 25, 'thorough': 400}, nontrivial=_nontrivial, classes=_classes,
                          weight=3.0 if fam in ('special', 'unp', 'eigh', 'svd', 'fft') else 1.0))
+    for fam in PG.FAMILIES_FWD_ONLY + ['ones']:
+        if fam == 'ones':
+            strat = (lambda: pairing_cases(tier, first='buf', families=CHEAP_TAIL, max_len=3, allow_ones=True))
+        else:
+            strat = (lambda fam=fam: pairing_cases(tier, first=fam, families=CHEAP_TAIL, max_len=3))
+        bl.append(Bucket('nopullback:' + fam, strat, prop_no_pullback, {'quick': 15, 'thorough': 200},
+                         nontrivial=_nontrivial, classes=_classes))
     bl.append(Bucket('compose', (lambda: pairing_cases(tier, max_len=10, min_len=2)), prop_pairing,
                      {'quick': 30, 'thorough': 1200}, nontrivial=_nontrivial, classes=_classes,
                      shards={'quick': 12, 'thorough': 16}, weight=4.0))
